@@ -1,98 +1,65 @@
 (** Property C08 (robustness of the input reader on ARBITRARY bytes): final statements.
 
-    For the Rust code AS IT IS the unrestricted claim is FALSE (refutation witnesses below: F1 NaN
-    float panics; F2 string extents are never checked against the input: stray strings, out-of-bounds
-    slice panic, and with 32-bit wrap-around a 10-byte input that loops as long as the announced
-    element count).  What holds is the claim restricted to inputs in which every position that parses
-    as a value header parses to a sane one ([safe_bytes], decidable): C08_nopanic_partial,
-    C08_strings_partial.
+    For every input made of bytes that fits the pointer width, every pointer width, both overflow
+    modes and every sequence of read calls with ANY scope arguments (earlier answers of any kind,
+    dangling indices, undecodable values): no call panics, none reports a string outside the
+    input, none needs more than the stated fuel; the model is a function, so repeating a call on
+    the same state gives the same answer (and theorem C01 shows answers do not depend on the state).
 
-    For the REPAIRED reader (LazyFixed.v: string extent check in str_at, NaN -> ReadError) the claim
-    holds for every input made of bytes that fits the pointer width, every pointer width, both
-    overflow modes and every sequence of calls with ANY scope arguments: C08_nopanic, C08_strings. *)
+    History: before the repairs of findings F1 (NaN float -> panic) and F2 (string extents never
+    checked against the input) these statements were false of the code; the former witnesses are
+    kept below as Examples showing that they are plain read errors now. *)
 From Coq Require Import NArith List Bool.
 From SFV Require Import Base.Bytes Read.Lazy Read.ReadRun Read.ReadSafe Read.ReadRobust.
-From SFV Require Read.LazyFixed Read.ReadRunFixed Read.ReadSafeFixed Read.ReadRobustFixed.
 Import ListNotations.
 Open Scope N_scope.
 
-(** * The code as it is *)
-Theorem C08_nopanic_partial : forall W trap bs ops, safe_bytes W trap bs = true ->
+Theorem C08_nopanic : forall W trap bs ops, lenN bs < 2 ^ W -> Forall (fun b => b < 256) bs ->
   forallb no_bad (outs (run W trap (fuel_bs bs) bs ops)) = true.
-Proof. exact ReadRobust.C08_nopanic_partial. Qed.
+Proof. exact ReadRobust.C08_nopanic. Qed.
 
-Theorem C08_strings_partial : forall W trap bs ops, safe_bytes W trap bs = true ->
+Theorem C08_strings : forall W trap bs ops, lenN bs < 2 ^ W -> Forall (fun b => b < 256) bs ->
   let st := run W trap (fuel_bs bs) bs ops in
   forall h n, In (OVal (AStr h n)) (outs st) ->
   exists ptr, node_of (roots st) h = Some (LStr ptr n) /\ ptr + n <= lenN bs.
-Proof. exact ReadRobust.C08_strings_partial. Qed.
+Proof. exact ReadRobust.C08_strings. Qed.
 
-(** in particular the fuel [fuel_bs bs = 4 * |bs| + 4] always suffices on such inputs *)
-Theorem C08_no_fuel_partial : forall W trap bs ops, safe_bytes W trap bs = true ->
+Theorem C08_no_fuel : forall W trap bs ops, lenN bs < 2 ^ W -> Forall (fun b => b < 256) bs ->
   ~ In OFuel (outs (run W trap (fuel_bs bs) bs ops)).
 Proof.
-  intros W trap bs ops H Hin. pose proof (ReadRobust.C08_nopanic_partial W trap bs ops H) as Hf.
+  intros W trap bs ops HW Hb Hin. pose proof (ReadRobust.C08_nopanic W trap bs ops HW Hb) as Hf.
   rewrite forallb_forall in Hf. specialize (Hf _ Hin). discriminate.
+Qed.
+
+(** [no_bad] is exactly "not a panic, not a stray string, not out of fuel". *)
+Theorem C08_no_bad_spec : forall o, no_bad o = true <->
+  (forall s, o <> OPanic s) /\ o <> OStray /\ o <> OFuel.
+Proof.
+  intros o; split.
+  - intros H; destruct o; try discriminate H; repeat split; congruence.
+  - intros (H1 & H2 & H3); destruct o; try reflexivity.
+    + exfalso; apply H2; reflexivity.
+    + exfalso; apply (H1 site); reflexivity.
+    + exfalso; apply H3; reflexivity.
 Qed.
 
 Theorem C08_deterministic : forall W trap fuel bs ops1 ops2, ops1 = ops2 ->
   outs (run W trap fuel bs ops1) = outs (run W trap fuel bs ops2).
 Proof. exact ReadRobust.C08_deterministic. Qed.
 
-Theorem C08_nopanic_refuted : exists W trap bs ops,
-  lenN bs < 2 ^ W /\ Forall (fun b => b < 256) bs /\ forallb no_bad (outs (run W trap (fuel_bs bs) bs ops)) = false.
-Proof. exact ReadRobust.C08_nopanic_refuted. Qed.
+(** Non-vacuity and history: the former crash witnesses are read errors now. *)
+Example C08_example_truncated_key :
+  let bs := [0x81;0xd9;0x64;0x6b] in
+  lenN bs < 2 ^ 32 /\ Forall (fun b => b < 256) bs /\
+  outs (run 32 true (fuel_bs bs) bs [RRoot; RProp (Some 0) [0x6b]])
+  = [OVal (AObj (0, []) 1); OVal (AErr E_Read)].
+Proof. cbv zeta. split; [vm_compute; reflexivity|]. split; [repeat constructor|vm_compute; reflexivity]. Qed.
 
-Example C08_witness_nan :
-  outs (run 32 true (fuel_bs [0xcb;0x7f;0xf8;0;0;0;0;0;0]) [0xcb;0x7f;0xf8;0;0;0;0;0;0] [RRoot]) = [OPanic P_nan_number].
-Proof. exact ReadRobust.C08_refuted_nan. Qed.
-Example C08_witness_stray :
+Example C08_example_nan :
+  outs (run 32 true (fuel_bs [0xcb;0x7f;0xf8;0;0;0;0;0;0]) [0xcb;0x7f;0xf8;0;0;0;0;0;0] [RRoot]) = [OVal (AErr E_Read)].
+Proof. vm_compute. reflexivity. Qed.
+
+Example C08_example_stray :
   outs (run 32 true (fuel_bs [0xd9;0xc8;0x61;0x62]) [0xd9;0xc8;0x61;0x62] [RRoot; RStr (Some 0)])
-  = [OVal (AStr (0, []) 200); OStray].
-Proof. exact ReadRobust.C08_refuted_stray. Qed.
-Example C08_witness_key_slice :
-  outs (run 32 true (fuel_bs [0x81;0xd9;0x64;0x6b]) [0x81;0xd9;0x64;0x6b] [RRoot; RProp (Some 0) [0x6b]])
-  = [OVal (AObj (0, []) 1); OPanic P_key_slice].
-Proof. exact ReadRobust.C08_refuted_key_slice. Qed.
-Example C08_witness_wrap_loop :
-  outs (run 32 false (fuel_bs wrap_input) wrap_input [RRoot; RIdx (Some 0) 1000])
-  = [OVal (AArr (0, []) 4294967295); OFuel].
-Proof. exact ReadRobust.C08_refuted_fuel. Qed.
-Example C08_witness_wrap_overflow :
-  outs (run 32 true (fuel_bs wrap_input) wrap_input [RRoot; RIdx (Some 0) 1000])
-  = [OVal (AArr (0, []) 4294967295); OPanic P_add_overflow].
-Proof. exact ReadRobust.C08_refuted_overflow. Qed.
-
-Example C08_partial_hyp_satisfiable :
-  safe_bytes 32 true [0x82;0xa1;0x61;0x93;0x01;0xc0;0xa2;0x68;0x69;0xa1;0x62;0xcb;0x3f;0xf0;0;0;0;0;0;0] = true.
-Proof. exact ReadRobust.C08_partial_nonvacuous. Qed.
-
-(** * The repaired reader *)
-Module Fixed.
-  Import Read.LazyFixed Read.ReadRunFixed Read.ReadSafeFixed Read.ReadRobustFixed.
-
-  Theorem C08_nopanic : forall W trap bs ops, lenN bs < 2 ^ W -> Forall (fun b => b < 256) bs ->
-    forallb ReadSafeFixed.no_bad (outs (run W trap (ReadSafeFixed.fuel_bs bs) bs ops)) = true.
-  Proof. exact ReadRobustFixed.C08_nopanic. Qed.
-
-  Theorem C08_strings : forall W trap bs ops, lenN bs < 2 ^ W -> Forall (fun b => b < 256) bs ->
-    let st := run W trap (ReadSafeFixed.fuel_bs bs) bs ops in
-    forall h n, In (OVal (AStr h n)) (outs st) ->
-    exists ptr, node_of (roots st) h = Some (LStr ptr n) /\ ptr + n <= lenN bs.
-  Proof. exact ReadRobustFixed.C08_strings. Qed.
-
-  Theorem C08_no_fuel : forall W trap bs ops, lenN bs < 2 ^ W -> Forall (fun b => b < 256) bs ->
-    ~ In OFuel (outs (run W trap (ReadSafeFixed.fuel_bs bs) bs ops)).
-  Proof.
-    intros W trap bs ops HW Hb Hin. pose proof (ReadRobustFixed.C08_nopanic W trap bs ops HW Hb) as Hf.
-    rewrite forallb_forall in Hf. specialize (Hf _ Hin). discriminate.
-  Qed.
-
-  (** hypotheses satisfiable on garbage input; the former witnesses are plain errors now *)
-  Example C08_fixed_example :
-    let bs := [0x81;0xd9;0x64;0x6b] in
-    lenN bs < 2 ^ 32 /\ Forall (fun b => b < 256) bs /\
-    outs (run 32 true (ReadSafeFixed.fuel_bs bs) bs [RRoot; RProp (Some 0) [0x6b]])
-    = [OVal (AObj (0, []) 1); OVal (AErr E_Read)].
-  Proof. cbv zeta. split; [vm_compute; reflexivity|]. split; [repeat constructor|vm_compute; reflexivity]. Qed.
-End Fixed.
+  = [OVal (AErr E_Read); OBytes None].
+Proof. vm_compute. reflexivity. Qed.
